@@ -81,6 +81,8 @@ type txn struct {
 	callerLocked bool
 	inBatchCb    bool
 	rel          bool // relation operation: an unexpected failure is attributed to C04
+	depth        int  // nesting depth of events raised from inside a callback (Set / Emit)
+	forceBefore  bool // nested events raised from a "before" callback see the pre-state
 }
 
 // Counters collects reach and fault statistics of a run.
